@@ -7,4 +7,5 @@
 
 fn main() {
     println!("cargo:rerun-if-changed=json/config.json");
+    println!("cargo:rustc-check-cfg=cfg(smartcalc_verif)");
 }
